@@ -131,6 +131,32 @@ def serialStep (base : World) (v : View) : Req → View
 
 def serialRun (base : World) (v : View) (rs : List Req) : View := rs.foldl (serialStep base) v
 
+/-- what a request answers (as far as the tie observes it) -/
+inductive Resp where
+  | nothing                   -- delete-world
+  | err                       -- the change failed while being applied
+  | ids (fs : List Nat)       -- the features the applied change modified (key / 8), in order
+  | count (n : Nat)           -- a query: how many keys the world has
+  | worlds (ws : List Nat)    -- list-worlds ([] = only the default world is reported)
+  deriving DecidableEq, Repr
+
+/-- the answer of a request executed alone on view `v` -/
+def respOf (base : World) (v : View) : Req → Resp
+  | .query wid => .count (match vfind v wid with | some w => w.length | none => base.length)
+  | .change wid rs =>
+    let w := match vfind v wid with | some w => w | none => base
+    let ws := evalRules w rs
+    if applyFails ws then .err else .ids (ws.map (fun x => x.key / 8))
+  | .delete _ => .nothing
+  | .list => .worlds (v.map (·.1))
+
+/-- requests one at a time, with their answers -/
+def serialRunResp (base : World) (v : View) : List Req → View × List Resp
+  | [] => (v, [])
+  | r :: rest =>
+    let out := serialRunResp base (serialStep base v r) rest
+    (out.1, respOf base v r :: out.2)
+
 /-! ## The concurrent system -/
 
 inductive Pc where
@@ -284,6 +310,17 @@ def lookupWorld (s : State) (wid : Nat) : Option World :=
 /-- the worlds as a view, in map order (for the driver) -/
 def viewOf (s : State) : View :=
   s.map.filterMap (fun (wid, o) => match s.heap[o]? with | some w => some (wid, w) | none => none)
+
+/-- `add-world-with-change id change` (`api/functions/change.go: addWorldWithChange`), evaluated INSIDE a read
+phase — under the caller's `RLock` only, no upgrade:
+
+    c.Worlds.DeleteWorld(id); return change.Apply(c.Worlds.FindOrCreateWorld(id))
+
+the effect on the worlds of a client that is at `eval`: world `target` is unmapped, a fresh object is mapped and
+written.  Not a client kind of `clientStep` (it would break `writer_excludes_readers` by construction); kept as
+the effect function for the counterexample `B6.Props.C40.add_world_writes_during_read_phase`. -/
+def addWorldEffect (s : State) (target : Nat) (ws : List Write) : State :=
+  { s with map := merase s.map target ++ [(target, s.heap.length)], heap := s.heap ++ [applyWrites s.base ws] }
 
 /-! ## The conflict class -/
 
